@@ -4,7 +4,7 @@
     API; the correspondence check compares them.  The same function is run
     extracted (OCaml) and inside Coq ([Eval vm_compute]).  Definitions only. *)
 From SeqIO Require Import Model.Base Model.Fasta Model.Fastq Model.Views Model.Display
-     Gen.DisplayGen Spec.FastaSpec Spec.FastqSpec.
+     Gen.DisplayGen Gen.PolicyGen Spec.FastaSpec Spec.FastqSpec.
 
 (* ------------------------------------------------------------------ *)
 (** * Text utilities *)
@@ -93,6 +93,8 @@ Inductive op :=
 | OpSeekSaved (i : nat)           (* J<i> : seek to the i-th position saved by P *)
 | OpPos                           (* P : position(), saved *)
 | OpSetPolicy (p : polspec)       (* Y<pol> *)
+| OpSerSet (slot : nat)           (* Z<slot> : serialise + deserialise the set, iterate the result *)
+| OpSerOwned                      (* Q : next(), to_owned_record(), serialise + deserialise *)
 | OpBad.
 
 Definition parse_op (l : list byte) : op :=
@@ -107,6 +109,8 @@ Definition parse_op (l : list byte) : op :=
   | 74 :: i => OpSeekSaved (undec i)
   | [80] => OpPos
   | 89 :: p => OpSetPolicy (parse_pol p)
+  | 90 :: s => OpSerSet (undec s)
+  | [81] => OpSerOwned
   | _ => OpBad
   end.
 
@@ -387,6 +391,19 @@ Section FaRun.
                 (match fa_position r with Some p => saved ++ [p] | None => saved end)
         | OpSetPolicy p =>
             fin [89] (fa_set_policy r (pol_of p)) p_ok sets saved
+        | OpSerSet slot =>
+            fin ([90] ++ dec slot) r
+                (p_set (map p_fa_rec (fa_set_records (nth_set sets slot fa_set_empty)))) sets saved
+        | OpSerOwned =>
+            let '(r', x) := fa_next fuel ffuel r in
+            fin [81] r'
+                match x with
+                | ORec rc => match fa_to_owned rc with
+                             | Some (h, s) => [111; 119; 110; 32] ++ hex h ++ [46] ++ hex s
+                             | None => p_panic 0
+                             end
+                | other => p_out other
+                end sets saved
         | OpBad => [98; 97; 100; 111; 112] ++ NL
         end
     end.
@@ -455,6 +472,19 @@ Section FaRun.
             fin [80] r [112; 111; 115] sets (saved ++ [fq_position r])
         | OpSetPolicy p =>
             fin [89] (fq_set_policy r (pol_of p)) p_ok sets saved
+        | OpSerSet slot =>
+            fin ([90] ++ dec slot) r
+                (p_set (map p_fq_rec (fq_set_records (nth_set sets slot fq_set_empty)))) sets saved
+        | OpSerOwned =>
+            let '(r', x) := fq_next fuel ffuel r in
+            fin [81] r'
+                match x with
+                | QORec rc => match fq_to_owned rc with
+                              | Some (h, s, q) => [111; 119; 110; 32] ++ hex h ++ [46] ++ hex s ++ [46] ++ hex q
+                              | None => p_panic 0
+                              end
+                | other => p_out other
+                end sets saved
         | OpBad => [98; 97; 100; 111; 112] ++ NL
         end
     end.
@@ -543,10 +573,30 @@ Definition run_writer_case (toks : list (list byte)) : list byte :=
   | _ => [98; 97; 100; 99; 97; 115; 101] ++ NL
   end.
 
+(** One policy case: "pol <std|du.A|dul.A.B> <c1,c2,...>": the answers of the built-in
+    policies as generated from src/policy.rs (Gen/PolicyGen.v), 'n' = refused *)
+Definition p_optz (x : option Z) : list byte :=
+  match x with Some z => dec (Z.to_nat z) | None => [110] end.
+Definition run_policy_case (toks : list (list byte)) : list byte :=
+  match toks with
+  | _ :: pt :: ct :: _ =>
+      let cs := map undec (list_or_empty ct) in
+      let f (c : nat) : option Z :=
+        match parse_pol pt with
+        | PStd => std_grow_to (Z.of_nat c)
+        | PDu a => double_until_grow_to (Z.of_nat a) (Z.of_nat c)
+        | PDul a b => double_until_limited_grow_to (Z.of_nat a) (Z.of_nat b) (Z.of_nat c)
+        | _ => None
+        end in
+      [112; 111; 108; 32] ++ join [44] (map (fun c => p_optz (f c)) cs) ++ NL
+  | _ => [98; 97; 100; 99; 97; 115; 101] ++ NL
+  end.
+
 (** dispatcher: one case line in, trace lines out *)
 Definition run_line (line : list byte) : list byte :=
   let toks := split_on 32 line in
   match toks with
   | [119; 114] :: _ => run_writer_case toks
+  | [112; 111; 108] :: _ => run_policy_case toks
   | _ => run_reader_case toks
   end.
